@@ -229,6 +229,14 @@ def finishStep (s : State) (i : Nat) (a : Actor) : State :=
   let (a', failed) := advance s i a a.todo
   { s with actors := modifyAt s.actors i (fun _ => a'), err := if failed then 1 else s.err }
 
+/-- Actor `i` (record `a`) now waits on the visible simcall `p` (continuation of a split S4U call). -/
+def setPend (s : State) (i : Nat) (a : Actor) (p : Pend) : State :=
+  { s with actors := modifyAt s.actors i (fun _ => { a with pend := some p }) }
+
+/-- The application died in the simcall handler of actor `i` (an `xbt_assert` of the kernel): error branch. -/
+def crash (s : State) (i : Nat) (a : Actor) : State :=
+  { s with actors := modifyAt s.actors i (fun _ => { a with pend := none }), err := 2 }
+
 /-! ### enabledness (the observers' `is_enabled`) -/
 
 def pendEnabled (s : State) (i : Nat) : Pend → Bool
@@ -285,7 +293,7 @@ def execPend (s : State) (i : Nat) (a : Actor) (p : Pend) (tc : Nat) : State :=
   match p with
   | .mutexAsyncLock m =>
     let s1 := { s with mutexes := modifyAt s.mutexes m (fun mu => mutexLockAsync mu i) }
-    { s1 with actors := modifyAt s1.actors i (fun _ => { a with pend := some (.mutexWait m) }) }
+    setPend s1 i a (.mutexWait m)
   | .mutexWait _ => finishStep s i a
   | .mutexTrylock m =>
     match mutexOwner s m with
@@ -296,50 +304,50 @@ def execPend (s : State) (i : Nat) (a : Actor) (p : Pend) (tc : Nat) : State :=
   | .mutexUnlock m =>
     if mutexOwner s m = some i then
       finishStep { s with mutexes := modifyAt s.mutexes m mutexRelease } i a
-    else { s with err := 2 }      -- xbt_assert(issuer == owner_) in MutexImpl::unlock
+    else crash s i a      -- xbt_assert(issuer == owner_) in MutexImpl::unlock
   | .semAsyncLock k =>
     let s1 := { s with sems := modifyAt s.sems k (fun se => semAcquireAsync se i) }
-    { s1 with actors := modifyAt s1.actors i (fun _ => { a with pend := some (.semWait k) }) }
+    setPend s1 i a (.semWait k)
   | .semWait _ => finishStep s i a
   | .semUnlock k => finishStep { s with sems := modifyAt s.sems k semRelease } i a
   | .barAsyncLock b =>
     let s1 := { s with bars := modifyAt s.bars b (fun ba => barAcquireAsync ba i) }
-    { s1 with actors := modifyAt s1.actors i (fun _ => { a with pend := some (.barWait b) }) }
+    setPend s1 i a (.barWait b)
   | .barWait _ => finishStep s i a
   | .cvAsyncLock c m =>
     if mutexOwner s m = some i then
       -- ConditionVariableImpl::acquire_async: mutex->unlock(issuer); ongoing_acquisitions_.push_back
       let s1 := { s with mutexes := modifyAt s.mutexes m mutexRelease,
                          cvs := modifyAt s.cvs c (fun cv => { cv with queue := cv.queue ++ [i] }) }
-      { s1 with actors := modifyAt s1.actors i (fun _ => { a with pend := some (.cvWait c m) }) }
-    else { s with err := 2 }
+      setPend s1 i a (.cvWait c m)
+    else crash s i a
   | .cvWait _ m =>
     -- second simcall of do_wait: acquisition->wait_for; mut_acqui = mutex->lock_async(issuer)
     let s1 := { s with mutexes := modifyAt s.mutexes m (fun mu => mutexLockAsync mu i) }
-    { s1 with actors := modifyAt s1.actors i (fun _ => { a with pend := some (.mutexWait m) }) }
+    setPend s1 i a (.mutexWait m)
   | .cvSignal c => finishStep { s with cvs := modifyAt s.cvs c (fun cv => { cv with queue := cv.queue.tail }) } i a
   | .cvBroadcast c => finishStep { s with cvs := modifyAt s.cvs c (fun cv => { cv with queue := [] }) } i a
   | .commAsyncSend x v slot =>
     match s.mboxes[x]? with
-    | none => { s with err := 2 }
+    | none => crash s i a
     | some mb =>
       let n := mb.nsend
       let comms := if n < mb.nrecv then updComm s.comms x n (fun c => { c with src := some i, val := v })
                    else s.comms ++ [{ x := x, n := n, src := some i, dst := none, val := v }]
       let s1 := { s with mboxes := modifyAt s.mboxes x (fun mb => { mb with nsend := mb.nsend + 1 }), comms := comms }
       match slot with
-      | none => { s1 with actors := modifyAt s1.actors i (fun _ => { a with pend := some (.commWait x n false none) }) }
+      | none => setPend s1 i a (.commWait x n false none)
       | some sl => finishStep s1 i (slotSet a sl x n false)
   | .commAsyncRecv x slot =>
     match s.mboxes[x]? with
-    | none => { s with err := 2 }
+    | none => crash s i a
     | some mb =>
       let n := mb.nrecv
       let comms := if n < mb.nsend then updComm s.comms x n (fun c => { c with dst := some i })
                    else s.comms ++ [{ x := x, n := n, src := none, dst := some i, val := 0 }]
       let s1 := { s with mboxes := modifyAt s.mboxes x (fun mb => { mb with nrecv := mb.nrecv + 1 }), comms := comms }
       match slot with
-      | none => { s1 with actors := modifyAt s1.actors i (fun _ => { a with pend := some (.commWait x n true none) }) }
+      | none => setPend s1 i a (.commWait x n true none)
       | some sl => finishStep s1 i (slotSet a sl x n true)
   | .commWait x n r slot =>
     let v : Int := match findComm s.comms x n with | some c => c.val | none => 0
@@ -356,12 +364,14 @@ def execPend (s : State) (i : Nat) (a : Actor) (p : Pend) (tc : Nat) : State :=
   | .actorCreate k =>
     let ci := s.nstatic + k
     match s.actors[ci]? with
-    | none => { s with err := 2 }
+    | none => crash s i a
     | some c =>
-      -- the child gets pid maxpid_++ and runs to its first simcall in the same scheduling round
-      let s1 := { s with nextPid := s.nextPid + 1 }
-      let s2 := finishStep s1 ci { c with pid := s.nextPid }
-      finishStep s2 i a
+      if c.pid = 0 ∧ c.pend = none ∧ ci ≠ i then
+        -- the child gets pid maxpid_++ and runs to its first simcall in the same scheduling round
+        let s1 := { s with nextPid := s.nextPid + 1 }
+        let s2 := finishStep s1 ci { c with pid := s.nextPid }
+        finishStep s2 i a
+      else crash s i a      -- body started twice: outside the mini-language (the generator never does it)
   | .actorJoin _ => finishStep s i a
   | .random lo _ => finishStep s i { a with obs := a.obs ++ [lo + (tc : Int)] }
 
